@@ -21,7 +21,7 @@ class C18(BaseCheck):
   REQUIRED_CLASSES = ('counter', 'gauge', 'percentile:below-reservoir', 'percentile:above-reservoir',
                       'full-stack', 'percentile:busy-after-full', 'zero-increment', 'fractional-increment',
                       'overlapping-measure', 'gauge:persistent-objects', 'percentile:second-aggregation',
-                      'sibling-class-same-short-name', 'source-subclass', 'client-id:equal-not-identical', 'percentile:idle-siblings')
+                      'sibling-class-same-short-name', 'source-subclass', 'client-id:equal-not-identical', 'percentile:idle-siblings', 'percentile:aggregation-spans-clock-ticks')
   ASSUMPTIONS = ('percentile bounds allow 1e-9 relative slack for the linear interpolation',)
   QUICK_CASES = 720
   THOROUGH_CASES = 40000
@@ -288,6 +288,42 @@ class C18(BaseCheck):
         s = the_src if same_object else Source(*pt)
         VarzReceiver.RecordPercentileSample(s, metric, 1000.0 + rng.random() * 10)
       aggregate_and_judge(2)
+    if idx % 5 == 2:
+      # an aggregation that takes its time (every metric costs CPU; Aggregate yields between metrics)
+      # while the source stays busy: the one-second low-resolution clock ticks in the middle of it and
+      # samples recorded then carry a later stamp than the instant the aggregation started at
+      import gevent
+      import scales.varz as varz_mod
+      classes.add('percentile:aggregation-spans-clock-ticks')
+      stop_ = [False]
+
+      def sampler():
+        while not stop_[0]:
+          s_ = the_src if same_object else Source(*pt)
+          VarzReceiver.RecordPercentileSample(s_, metric, 2000.0 + rng.random())
+          gevent.sleep(0.3)
+      g_s = gevent.spawn(sampler)
+      env.advance(1.5)
+      for _b in range(400):     # (a full reservoir keeps one new sample in ten: enough of them that it has just been refreshed)
+        VarzReceiver.RecordPercentileSample(the_src if same_object else Source(*pt), metric, 2000.0 + rng.random())
+
+      class _SlowGevent(object):
+        def __getattr__(self, name):
+          return getattr(gevent, name)
+
+        @staticmethod
+        def sleep(t=0):
+          env.clock.now += 0.4          # what the metric just aggregated cost
+          return gevent.sleep(t)
+      orig_g = varz_mod.gevent
+      varz_mod.gevent = _SlowGevent()
+      try:
+        aggregate_and_judge(3)
+      finally:
+        varz_mod.gevent = orig_g
+        stop_[0] = True
+      env.advance(0.5)
+      g_s.kill(block=False)
     # ---------------- full stack
     full = idx % 4 == 0
     if full:
